@@ -504,6 +504,52 @@ fn name_shape_templates(rep: &mut Report) {
             }
         }
     }
+    // a binder (type arm with an expression or a block body, if-set, while-set, for, parameter, block declaration, destructuring,
+    // module member) spelled like a run-time variable of the enclosing scope: the outer variable is unchanged afterwards, also as
+    // seen by a closure created afterwards
+    let binder_cases: [(&str, &str); 22] = [
+        ("c := mut 10; v := *c; r := match *c + 1 { v: int => v * 2, }; (r, v)", "(22, 10)"),
+        ("c := mut 10; v := *c; r := match *c + 1 { v: int => { v * 2 }, }; (r, v)", "(22, 10)"),
+        ("c := mut 10; v := *c; r := match *c + 1 { 5 => 0, v: int => v * 2, }; g := () -> int { return v }; (r, v, g())", "(22, 10, 10)"),
+        ("c := mut 10; v := *c; r := if v: int = *c + 1 { v * 2 } else { 0 }; (r, v)", "(22, 10)"),
+        ("c := mut 10; v := *c; n := mut 0; while v: int = *c + 1 { n += v; break } (*n, v)", "(11, 10)"),
+        ("c := mut 10; v := *c; s := mut 0; for v in [1, 2]~ { s += v; } (*s, v)", "(3, 10)"),
+        ("c := mut 10; v := *c; f := (v: int) -> int { return v * 2 }; (f(3), v)", "(6, 10)"),
+        ("c := mut 10; v := *c; r := { v := 5; v * 2 }; (r, v)", "(10, 10)"),
+        ("c := mut 10; v := *c; r := { (v, w) := (1, 2); v + w }; (r, v)", "(3, 10)"),
+        ("c := mut 10; v := *c; m := mod { v := 7 }; (m.v, v)", "(7, 10)"),
+        ("c := mut 10; v := *c; r := [1, 2]~ @ (v: int) -> int { return v * 2 } $]; (r, v)", "([2, 4], 10)"),
+        ("c := mut 10; v := *c; r := [1, 2]~ $ 0 (v: int, x: int) -> int { return v + x }; (r, v)", "(3, 10)"),
+        ("f := (v: int) -> (int, int, int) { r := match v + 1 { v: int => v * 2, }; g := () -> int { return v }; return (r, v, g()) }; f(10)", "(22, 10, 10)"),
+        ("f := (v: int) -> (int, int, int) { r := if v: int = v + 1 { v * 2 } else { 0 }; g := () -> int { return v }; return (r, v, g()) }; f(10)", "(22, 10, 10)"),
+        ("f := (v: int) -> (int, int, int) { n := mut 0; while v: int = v + 1 { n += v; break } g := () -> int { return v }; return (*n, v, g()) }; f(10)", "(11, 10, 10)"),
+        ("f := (v: int) -> (int, int, int) { s := mut 0; for v in [1, 2]~ { s += v; } g := () -> int { return v }; return (*s, v, g()) }; f(10)", "(3, 10, 10)"),
+        ("f := (v: int|string) -> (int, int|string) { r := match v { v: int => v * 2, v: string => std.len(v), }; return (r, v) }; (f(10), f(\"ab\"))", "((20, 10), (2, \"ab\"))"),
+        ("f := (v: int) -> (int, int) { r := match v + 1 { w: int => { v := w * 2; v }, }; return (r, v) }; f(10)", "(22, 10)"),
+        ("f := (v: int) -> (int, int) { r := match (v, v + 1) { v: (int, int) => v.1, }; return (r, v) }; f(10)", "(11, 10)"),
+        ("c := mut 10; v := *c; w := *c + 1; r := match w { v: int => v, }; s := match v { w: int => w, }; (r, s, v, w)", "(11, 10, 10, 11)"),
+        ("c := mut 10; v := *c; i := mut 0; out := mut [int] []; while *i < 2 { r := match *i { v: int => v + 100, }; out += [r, v]; i += 1; } *out", "[100, 10, 101, 10]"),
+        ("c := mut 10; v := *c; r := match *c + 1 { v: int => v * 2, } + match *c + 2 { v: int => v, }; (r, v)", "<any>"),
+    ];
+    for (src, want) in binder_cases {
+        rep.evaluations += 1;
+        rep.count("name-shape-templates");
+        let run = run_real(src, FUEL);
+        let got = match &run.outcome {
+            Outcome::Value(v) => canon(v),
+            other => other.tag(),
+        };
+        if got.starts_with("panic:") && got != "panic:Panic" {
+            rep.inconclusive("template:resource-or-fuel");
+            continue;
+        }
+        if want == "<any>" {
+            continue;
+        }
+        if got != want {
+            rep.violation(&format!("c06:binder-scope-template:{}", truncate(src, 60)), &format!("`{src}` gave {got}, expected {want} (a binder is visible in its own construct only)"), "diff", &format!("#template {want}\n{src}\n"));
+        }
+    }
     for (n1, n2) in pairs {
         let cases = [
             (format!("{n1} := 1; {n2} := 2; f := () -> (int, int) {{ return ({n1}, {n2}) }}; r := {{ {n1} := 10; ({n1}, {n2}, f()) }}; ({n1}, {n2}, r)"), "(1, 2, (10, 2, (1, 2)))"),
